@@ -455,5 +455,13 @@ def run(ctx):
     from .C08 import check_col
     ctx.rule("C01-DESIGN", "trend / offset design matrix and offset-prior order (shared implementation with C08-COL).")
     check_col(_Relabel(ctx, {"C08-COL": "C01-DESIGN"}))
+    # samples reach the kernel packed as (P, e, omega, M0, s) in internal units (shared with C05-FEED / C12-COL)
+    from .C05 import check_feed
+    from .C12 import _reader_checks
+    ctx.rule("C01-FEED", "prior samples reach the kernel packed in the helper's order and internal units on every path (shared with C05-FEED); the file readers convert from the "
+                         "units found in this file's header on this call (shared with C12-COL).")
+    check_feed(_Relabel(ctx, {"C05-FEED": "C01-FEED"}))
+    _reader_checks(ctx, "C01-FEED", "read_batch_slice", "slice")
+    _reader_checks(ctx, "C01-FEED", "read_batch_idx", "idx")
     ctx.assume("LAPACK dgetrf/dgetri/dsysv and twobody's c_rv_from_elements compute what they document; round-off, finiteness and Kepler-solver convergence are not decided")
     ctx.assume("the compiled extension is rebuilt from this .pyx (Cython is not installed in this sandbox: the checks read the source of truth)")
